@@ -1,5 +1,5 @@
-"""C12 contract on phyclone/process_trace/process_trace.py:get_labels_table, unclustered branch (the clustered branch and
-get_clone_table are pandas group-by code: bounded stand-in only).
+"""C12 contracts on phyclone/process_trace/process_trace.py:get_labels_table, both branches (the pandas expressions of the clustered branch are kept as
+terms; get_clone_table is in c11_pandas.py).
 
 For any number of data points and any labelling: the records handed to pandas are
   - for every labelled data point idx: one record (mutation_id = data[idx].name, clone_id = labels[idx]), and its name is registered;
@@ -105,7 +105,7 @@ def h_labels_unclustered(I, fi):
         return
     k, j = gens
     if not (isinstance(res, DF) and isinstance(res.rows, list)):
-        P.check("labels.table-is-the-records", False, "the table is DataFrame(records) sorted by clone and mutation", kind="post")
+        P.check("labels.table-is-the-records", False, "the table is DataFrame(records), rows permuted by a sort on the records' own columns", kind="post")
         return
     log["records"] = res.rows
     idx = alg.raw_app("labelled_idx", k, sort="Int")
@@ -127,11 +127,238 @@ def h_labels_unclustered(I, fi):
     else:
         P.check("labels.registered-point-not-repeated", is_reg, "a point whose name is registered yields no second record", kind="post")
         dsl.cover(I, "labels.no-fill-in")
-    P.check("labels.table-is-the-records", isinstance(res, DF) and res.by == ["clone_id", "mutation_id"],
-            "the table is DataFrame(records) sorted by clone and mutation", kind="post")
+    # the property says nothing about the order of the rows: any sort key made of the records' columns is a permutation of the same rows
+    P.check("labels.table-is-the-records", isinstance(res, DF) and (res.by is None or (isinstance(res.by, (list, tuple, str)) and set([res.by] if isinstance(res.by, str) else res.by) <= {"clone_id", "mutation_id"})),
+            "the table is DataFrame(records), rows permuted by a sort on the records' own columns", kind="post")
 
 
 COVERS = ["labels.unclustered", "labels.fill-in", "labels.no-fill-in", "labels.nothing-labelled"]
+
+
+def h_labels_clustered(I, fi):
+    """get_labels_table with a cluster table, for any number of clusters, labelled data points and mutations per cluster:
+      - a labelled data point idx stands for the cluster whose id is int(data[idx].name); it yields one record
+        (mutation, labels[idx], that cluster id) for every distinct mutation id of THAT cluster's group of the cluster table, and exactly those ids are registered;
+      - after the loop the rows of the cluster table whose mutation id is not registered are copied, get the outlier node as clone id (on the copy) and are
+        appended as records;
+      - the table is DataFrame(records) sorted by (clone, cluster, mutation).
+    pandas expressions are kept as terms (their meaning is pandas')."""
+    from contracts.c17_loader import E, _same, _flat
+    P = I.P
+    n = alg.sym("n_data", "Int")
+    m = alg.sym("n_labelled", "Int")
+    P.assume(z3.And(P.z(n) >= 1, P.z(m) >= 0))
+    events = []
+
+    class DP(Model):
+        def __init__(self, idx):
+            self.idx = I.to_num(idx)
+
+        def a_name(self, I_):
+            return Name(self.idx)
+
+    class Data(SymSeq):
+        def getitem(self, I_, key):
+            return DP(key)
+
+    data = Data("data", n, lambda i: DP(i))
+
+    class Labels(SymSeq):
+        def getitem(self, I_, key):
+            return alg.raw_app("label", I_.to_num(key), sort="Int")
+
+    labels = Labels("labels", m, lambda k: alg.raw_app("labelled_idx", I.to_num(k), sort="Int"))
+    outl = alg.sym("outlier_node_name", "Int")
+
+    class TreeM(Model):
+        def a_outlier_node_name(self, I_):
+            return outl
+
+        def a_labels(self, I_):
+            return labels
+
+    def to_int(I_, x):
+        if not isinstance(x, Name):
+            raise Unsupported("int() of something that is not a data point name")
+        return alg.raw_app("cluster_id_of_name", x.idx, sort="Int")
+
+    class Muts(SymSeq):
+        """the distinct mutation ids of one group of the cluster table"""
+
+    def muts_of(cid):
+        c = I.to_num(cid)
+        ln = alg.raw_app("n_muts_of_cluster", c, sort="Int")
+        P.assume(P.z(ln) >= 0)
+        s = Muts("muts", ln, lambda t: ("mutation", c.key(), _k(I.to_num(t))))
+        s.cid = c
+        return s
+
+    def _k(x):
+        return x.key() if isinstance(x, Num) else x
+
+    class Series(Model):
+        def __init__(self, cid):
+            self.cid = cid
+
+        def m_unique(self, I_):
+            return muts_of(self.cid)
+
+    class Group(Model):
+        def __init__(self, cid):
+            self.cid = cid
+
+        def getitem(self, I_, col):
+            if col != "mutation_id":
+                raise Unsupported("group[%r]" % (col,))
+            return Series(self.cid)
+
+    class Grouped(Model):
+        def __init__(self, by):
+            self.by = by
+
+        def m_get_group(self, I_, cid):
+            events.append(("get_group", self.by, I_.to_num(cid).key()))
+            return Group(I_.to_num(cid))
+
+    class NameSet(Model):
+        def m_update(self, I_, xs):
+            events.append(("registered", xs))
+
+        def m_add(self, I_, x):
+            events.append(("registered-one", x))
+
+    names = NameSet()
+
+    class Clusters(E):
+        def m_groupby(self, I_, by, **k):
+            return Grouped(by)
+
+        def m_isin(self, I_, other):
+            events.append(("isin-evaluated", other))
+            return E("isin", self, "registered" if other is names else other)
+
+    class ClustersCol(Clusters):
+        pass
+
+    class ClustersDF(E):
+        def m_groupby(self, I_, by, **k):
+            return Grouped(by)
+
+        def getitem(self, I_, key):
+            if key == "mutation_id":
+                return ClustersCol("getitem", self, key)
+            return E.getitem(self, I_, key)
+
+        def setitem(self, I_, key, v):
+            events.append(("store-into-the-cluster-table", key))
+
+    clusters = ClustersDF("clusters")
+
+    class Missing(Model):
+        """a frame derived from the cluster table"""
+
+        def __init__(self, term, copied=False, stores=()):
+            self.term, self.copied, self.stores = term, copied, list(stores)
+
+        def m_copy(self, I_):
+            return Missing(self.term, True, self.stores)
+
+        def setitem(self, I_, key, v):
+            if not self.copied:
+                events.append(("store-into-a-view", key))
+            self.stores.append((key, v))
+
+        def m_to_dict(self, I_, how=None):
+            return ("records-of", self, how)
+
+    class LocM(Model):
+        def getitem(self, I_, key):
+            return Missing(E("loc", clusters, key))
+
+    ClustersDF.a_loc = lambda self, I_: LocM()
+    ClustersDF.getitem_mask = None
+
+    class RecList(Model):
+        def m_append(self, I_, x):
+            events.append(("records", "one", x))
+
+        def m_extend(self, I_, xs):
+            events.append(("records", "many", xs))
+
+    recs = RecList()
+
+    class DF(Model):
+        def __init__(self, rows, by=None):
+            self.rows, self.by = rows, by
+
+        def m_sort_values(self, I_, by=None):
+            return DF(self.rows, by)
+
+    class Pd(Model):
+        def m_DataFrame(self, I_, rows):
+            events.append(("frame", rows))
+            return DF(rows)
+
+    I.registry.globals_override["pd"] = Pd()
+    I.registry.globals_override["set"] = lambda I_, *a: names
+    I.registry.globals_override["int"] = to_int
+    I.registry.empty_list_model = lambda I_, node: recs
+    I.registry.generic_loops.add(fi.qualname)
+    res = I.call_function(fi, [data, TreeM()], {"clusters": clusters}, force_inline=True)
+    gens = P.ghost.get("generic_indices", [])
+    dsl.cover(I, "labels.clustered")
+    P.check("labels.clustered.no-store-into-the-cluster-table", not [e for e in events if e[0] in ("store-into-the-cluster-table", "store-into-a-view")],
+            "the caller's cluster table is not written (the outlier clone id goes to a copy)", kind="post")
+    # ---- the fill-in: after the loop, from the complete set of registered ids
+    tail = [e for e in events if e[0] in ("isin-evaluated", "frame") or (e[0] == "records" and e[1] == "many" and isinstance(e[2], tuple))]
+    kinds = [e[0] for e in tail]
+    ok_order = kinds == ["isin-evaluated", "records", "frame"] and events.index(tail[0]) > max([i for i, e in enumerate(events) if e[0] in ("registered", "get_group")] + [-1])
+    P.check("labels.clustered.fill-in-after-all-clusters", ok_order, "the unregistered mutations are selected once, after every labelled cluster was registered, then appended, then the table is built", kind="post")
+    if not ok_order:
+        return
+    fill = tail[1][2]
+    ok_fill = isinstance(fill, tuple) and fill[0] == "records-of" and fill[2] == "records" and isinstance(fill[1], Missing) and fill[1].copied
+    want = E("loc", clusters, E("not", E("isin", E("getitem", clusters, "mutation_id"), "registered")))
+    ok_term = ok_fill and _same(_flat(fill[1].term), _flat(want))
+    P.check("labels.clustered.fill-in-rows", ok_term, "the appended rows are clusters.loc[~clusters.mutation_id.isin(registered ids)] (a copy), as records", kind="term")
+    ok_store = ok_fill and len(fill[1].stores) == 1 and fill[1].stores[0][0] == "clone_id" and isinstance(fill[1].stores[0][1], Num) and (fill[1].stores[0][1] - outl).is_zero()
+    P.check("labels.clustered.fill-in-gets-the-outlier-node", ok_store, "the only column written on the copy is clone_id = the outlier node", kind="post")
+    by_ok = isinstance(res, DF) and (res.by is None or (isinstance(res.by, (list, tuple, str)) and set([res.by] if isinstance(res.by, str) else res.by) <= {"clone_id", "cluster_id", "mutation_id"}))
+    P.check("labels.clustered.table-is-the-records", tail[2][1] is recs and by_ok,
+            "the table is DataFrame(records), rows permuted by a sort on the records' own columns", kind="post")
+    # ---- one arbitrary labelled data point
+    if not gens:
+        dsl.cover(I, "labels.clustered.nothing-labelled")
+        P.check("labels.clustered.nothing-labelled", not [e for e in events if e[0] in ("registered", "get_group", "registered-one")] and not P.feasible(P.z(m) != 0), "without labelled points only the fill-in adds records", kind="post")
+        return
+    dsl.cover(I, "labels.clustered.some")
+    P.check("labels.clustered.one-pass", len(gens) == 1, "one pass over the labelled points", kind="post")
+    k = gens[0]
+    idx = alg.raw_app("labelled_idx", k, sort="Int")
+    cid = alg.raw_app("cluster_id_of_name", idx, sort="Int")
+    groups = [e for e in events if e[0] == "get_group"]
+    P.check("labels.clustered.group-of-the-points-own-cluster", groups == [("get_group", "cluster_id", cid.key())], "the mutations are those of the group cluster_id == int(data[idx].name) of the cluster table", kind="post")
+    reg = [e for e in events if e[0] in ("registered", "registered-one")]
+    ok_reg = len(reg) == 1 and reg[0][0] == "registered" and isinstance(reg[0][1], Muts) and (reg[0][1].cid - cid).is_zero() and not reg[0][1].tail and getattr(reg[0][1], "mapped", None) is None
+    P.check("labels.clustered.cluster-mutations-registered", ok_reg, "exactly the distinct mutation ids of that cluster are registered", kind="post")
+    many = [e for e in events if e[0] == "records" and not isinstance(e[2], tuple)]
+    ok_rec = False
+    if len(many) == 1 and many[0][1] == "many" and isinstance(many[0][2], SymSeq) and not many[0][2].tail:
+        seq = many[0][2]
+        ln = alg.raw_app("n_muts_of_cluster", cid, sort="Int")
+        if not P.feasible(P.z(seq.core_len) != P.z(ln)):
+            t = alg.sym("t_mut", "Int")
+            P.assume(z3.And(P.z(t) >= 0, P.z(t) < P.z(ln)))
+            if P.feasible(z3.BoolVal(True)):
+                r = seq.core_at(I, t)
+                ok_rec = isinstance(r, dict) and set(r) == {"mutation_id", "clone_id", "cluster_id"} and r["mutation_id"] == ("mutation", cid.key(), t.key()) \
+                    and isinstance(r["clone_id"], Num) and (r["clone_id"] - alg.raw_app("label", idx, sort="Int")).is_zero() and isinstance(r["cluster_id"], Num) and (r["cluster_id"] - cid).is_zero()
+            else:
+                ok_rec = True
+    P.check("labels.clustered.one-record-per-mutation-of-the-cluster", ok_rec, "the labelled point yields one record (mutation, labels[idx], cluster id) per distinct mutation of its cluster, nothing else", kind="post")
+
+
+COVERS_CLUSTERED = ["labels.clustered"]
 
 
 # ----------------------------------------------------------------------------------------------------------- graph conversion (process_trace/utils.py)
@@ -225,6 +452,7 @@ def h_convert(I, fi):
 
 def verify_all(ctx, repo, prop="C12"):
     dsl.verify(ctx, repo, dsl.Registry(), prop, PT + ".get_labels_table", h_labels_unclustered, expect_covers=COVERS)
+    dsl.verify(ctx, repo, dsl.Registry(), prop, PT + ".get_labels_table", h_labels_clustered, expect_covers=COVERS_CLUSTERED)
     dsl.verify(ctx, repo, dsl.Registry(), prop, "phyclone.process_trace.utils.convert_rustworkx_to_networkx", h_convert, expect_covers=["convert"])
 
 
